@@ -20,6 +20,16 @@ With tail_k(q) = sqrt(sum_{j>=q} s_j^2) for unfolding k of the input:
 
 Accuracy specs: ['rel', f] -> f*||A||;  ['abs', x] -> x;  ['thr', k, q, sign] -> (1 + sign*1e-6) * tail_k(q)
 (just above / below the value at which rank q becomes admissible).
+
+Parameter / regime coverage added by the audit of the signatures:
+* e >= ||A|| (['rel', 1+1e-9], ['rel', 1.5 / 2], ['abs', 1e30]): every singular value may go and only the floor
+  max(1, .) keeps a rank - for svd, svd_matrix, matrix_skeleton (rel False / True) and matrix_svd, with and without cap;
+* exactly-zero arrays / matrices (kind 'zero', absolute accuracies): finite well-formed result of rank 1, zero error;
+* memory layout of the input array / matrix (param `layout`: 'F' Fortran order, 'V' strided view, 'R' negative strides);
+* mode sizes 300 .. 1025 (thorough 2048), many modes d = 7 .. 12 (thorough 15), alternating modes of size 1;
+* long / wide / larger matrices 600x4, 3x700, 1x300, 40x40 (thorough 2x2048, 120x90).
+Not covered on purpose: full_matrix(order='C') - the parameter is undocumented and the property fixes only the
+inverse of svd_matrix's interleaving (order 'F').
 """
 import itertools, math
 import numpy as np
@@ -32,7 +42,8 @@ BUDGET = (55, 560)
 BOUNDS = ('svd: d in {2,3,4} (thorough 5), modes 1..5, 13 magnitudes 1e-6..1e6, 5 array families, e in rel {0.5..1e-9} '
           'and (1 +- 1e-6) x every unfolding tail, caps {1e12,1,2,3,2.7}; svd_matrix/full_matrix q <= 5 (thorough 8) '
           'on integer-coded matrices; matrix factorisations: shapes 1x1 .. 7x5, 8 spectra, scales 1e-6..1e6, '
-          'all give_to x rel x hermitian, thresholds at every tail')
+          'all give_to x rel x hermitian, thresholds at every tail; e >= ||A||, zero arrays / matrices, input layouts F / '
+          'strided / negative strides, modes up to 1025 (thorough 2048), d up to 12 (thorough 15), matrices up to 600x4 / 3x700')
 
 EPS = np.finfo(float).eps
 MAGS = [10.0 ** k for k in range(-6, 7)]
